@@ -2125,3 +2125,343 @@ func everyParsedFileReachesApply(r *an.Run, m *runModel, rule string) {
 	}
 	r.Check(!escapes && reach[m.apply.Block()], short(f)+"|every-parsed-file-reaches-apply", m.apply.Pos(), "apart from read / parse failures and the --skip-generated arm, no path of an iteration reaches the next file without handing this one to (*patchRunner).Apply: nothing but the matcher decides whether the changes apply to a file")
 }
+
+// ---------------------------------------------------------------------------
+// C15: the working directory is the logical one, and nothing resolves links
+
+// c15LogicalPaths: relative arguments are made absolute by joining them to
+// the working directory, absolute ones are kept as spelled; both spellings of
+// one file must give one key. That holds when the working directory is what
+// os.Getwd reports (the logical $PWD) and nothing in the program resolves
+// symbolic links (filepath.EvalSymlinks, os.Readlink): with a physical working
+// directory `x.go` and `$PWD/x.go` name one file under two keys (seed C15-9),
+// and a writer that resolves links turns two names into one file (C12-8).
+func c15LogicalPaths(r *an.Run, rule string) {
+	r.Rule(rule)
+	mainFn := r.P.Func(mainP, "main")
+	if mainFn == nil {
+		r.Undecided("anchor|main.main", 0, "main.main not found")
+		return
+	}
+	n := 0
+	for _, e := range an.ExternalCalls(r.P.ReachableModuleFuncs(mainFn)) {
+		n++
+		if e.Callee == "path/filepath.EvalSymlinks" || e.Callee == "os.Readlink" {
+			r.Fail(short(e.In)+"|"+e.Callee, e.Site.Pos(), "%s calls %s: gopatch identifies a file by the path it was given (made absolute lexically); resolving symbolic links anywhere gives one file two identities, or two names one file", short(e.In), e.Callee)
+		}
+	}
+	r.Pass("no-link-resolution", 0, "%d external call sites reachable from main: none resolves symbolic links", n)
+	// Getwd wiring
+	rm := fn(r, mainP, "runMain")
+	if rm == nil {
+		return
+	}
+	wired := 0
+	for _, in := range an.StoresIn(rm) {
+		st, ok := in.(*ssa.Store)
+		if !ok {
+			continue
+		}
+		fa, ok := st.Addr.(*ssa.FieldAddr)
+		if !ok || fieldNameOf(fa) != "Getwd" {
+			continue
+		}
+		wired++
+		fv, isFn := an.Unwrap(st.Val).(*ssa.Function)
+		r.Check(isFn && fv.String() == "os.Getwd", short(rm)+"|Getwd", st.Pos(), "the working directory is what os.Getwd reports (the logical directory the user's relative and absolute spellings agree on); found %s", an.Describe(an.Unwrap(st.Val)))
+	}
+	r.Check(wired == 1, short(rm)+"|Getwd-wired", rm.Pos(), "runMain wires mainCmd.Getwd once (found %d)", wired)
+}
+
+// ---------------------------------------------------------------------------
+// C16: what ReadString returns together with io.EOF is processed
+
+// partialLineAtEOF: (*bufio.Reader).ReadString / ReadBytes return the data
+// read before the error together with the error; at io.EOF that is the last,
+// unterminated line. A loop that leaves on err == io.EOF without looking at
+// the data silently drops the last entry of a file that does not end in a
+// newline (seed C16-9: the last patch of a -P list is neither loaded nor
+// reported).
+func partialLineAtEOF(r *an.Run, rule string) {
+	r.Rule(rule)
+	n := 0
+	for _, f := range r.P.ModuleFuncs() {
+		if strings.Contains(an.FuncPkgPath(f), "/tools") {
+			continue
+		}
+		for _, c := range an.CallsTo(f, "(*bufio.Reader).ReadString", "(*bufio.Reader).ReadBytes", "(*bufio.Reader).ReadLine") {
+			call, ok := c.(*ssa.Call)
+			if !ok {
+				continue
+			}
+			n++
+			data := an.ExtractOf(call, 0)
+			res := call.Call.Signature().Results()
+			errs := an.ExtractOf(call, res.Len()-1)
+			key := short(f) + "|" + lastSegment(an.CalleeName(c))
+			if len(errs) == 0 || len(data) == 0 {
+				r.Fail(key, c.Pos(), "%s discards the data or the error of %s", short(f), an.CalleeName(c))
+				continue
+			}
+			// the edges taken when the error is non-nil (or equal to io.EOF)
+			var fail []an.CtrlEdge
+			for _, cse := range an.EqCases(f, func(v ssa.Value) bool { return v == ssa.Value(errs[0]) }) {
+				if an.IsNilConst(cse.Key) {
+					fail = append(fail, edgeTo(cse.If.Block(), cse.Else))
+				} else if g := an.GlobalLoaded(cse.Key); g != nil && g.Name() == "EOF" {
+					fail = append(fail, edgeTo(cse.If.Block(), cse.Target))
+				}
+			}
+			bad := false
+			for _, e := range fail {
+				if e.Succ < 0 {
+					continue
+				}
+				region := an.Reach([]*ssa.BasicBlock{e.Block.Succs[e.Succ]}, func(b *ssa.BasicBlock, i int) bool { return b.Succs[i] == call.Block() })
+				used := false
+				for _, u := range *data[0].Referrers() {
+					if _, dbg := u.(*ssa.DebugRef); dbg {
+						continue
+					}
+					if region[u.Block()] {
+						used = true
+					}
+				}
+				// the data may have been consumed before the error is looked at
+				for _, u := range *data[0].Referrers() {
+					if _, dbg := u.(*ssa.DebugRef); dbg {
+						continue
+					}
+					if u.Block() == call.Block() || (u.Block().Dominates(e.Block) && u.Block() != e.Block.Succs[e.Succ]) {
+						used = true
+					}
+				}
+				if !used {
+					bad = true
+				}
+			}
+			r.Check(!bad && len(fail) > 0, key, c.Pos(), "on the way out at io.EOF / on error, %s still looks at the data %s returned with it (the last line of a file without a final newline arrives together with io.EOF)", short(f), lastSegment(an.CalleeName(c)))
+		}
+	}
+	r.Count("ReadString-style calls", n)
+	r.Pass("readstring-sites", 0, "%d (*bufio.Reader).ReadString / ReadBytes / ReadLine call(s) in the module", n)
+}
+
+// ---------------------------------------------------------------------------
+// C17: one FileSet for the patch and the targets
+
+// oneFileSet: the engine's import machinery positions added imports with the
+// FileSet captured when the patch was compiled (ImportReplacer.Fset). That is
+// only meaningful if the target files are parsed into that very FileSet.
+func oneFileSet(r *an.Run, rule string) {
+	r.Rule(rule)
+	// library
+	if f := fn(r, patchP, "File.Apply"); f != nil {
+		n := 0
+		for _, g := range helperGroup(f, 2) {
+			for _, c := range an.CallsTo(g, parserParse, formatNode) {
+				a := c.Common().Args
+				fs := a[0]
+				if an.IsCallTo(c, formatNode) {
+					fs = a[1]
+				}
+				if nonDebugUses(c) == 0 && an.IsCallTo(c, parserParse) {
+					continue
+				}
+				n++
+				r.Check(strings.HasSuffix(an.PathIn(fs, f), ".fset") && an.Root(an.Unwrap(fs)) != nil && isFieldOfRecv(fs, f, g), short(g)+"|fileset|"+lastSegment(an.CalleeName(c)), c.Pos(), "%s works on the FileSet of the parsed patch (the receiver's fset), the one the compiled import replacers hold (found %s)", lastSegment(an.CalleeName(c)), an.Describe(an.Unwrap(fs)))
+			}
+		}
+		r.Count("FileSet uses in File.Apply", n)
+		r.Min("FileSet uses in File.Apply", 2)
+	}
+	if f := fn(r, patchP, "Parse"); f != nil {
+		var compileFS, storedFS ssa.Value
+		for _, c := range an.Calls(f) {
+			if sc := an.StaticCallee(c); sc != nil && short(sc) == "internal/engine.Compile" {
+				compileFS = c.Common().Args[0]
+			}
+		}
+		for _, in := range an.StoresIn(f) {
+			if st, ok := in.(*ssa.Store); ok {
+				if fa, ok := st.Addr.(*ssa.FieldAddr); ok && fieldNameOf(fa) == "fset" {
+					storedFS = st.Val
+				}
+			}
+		}
+		r.Check(compileFS != nil && compileFS == storedFS, short(f)+"|fileset-kept", f.Pos(), "patch.Parse keeps the FileSet the patch was compiled with")
+	}
+	// CLI
+	if m := buildRunModel(r); m != nil {
+		f := m.run
+		var loadFS, runnerFS ssa.Value
+		for _, c := range an.Calls(f) {
+			sc := an.StaticCallee(c)
+			if sc == nil {
+				continue
+			}
+			switch sc {
+			case r.P.Func(mainP, "loadPatches"):
+				loadFS = c.Common().Args[0]
+			case r.P.Func(mainP, "newPatchRunner"):
+				runnerFS = c.Common().Args[0]
+			}
+		}
+		parseFS := m.parse.Call.Args[0]
+		if p, ok := an.Unwrap(parseFS).(*ssa.Parameter); ok && p.Parent() != f && an.Actual(p) != nil {
+			parseFS = an.Actual(p)
+		}
+		r.Check(loadFS != nil && an.Unwrap(parseFS) == an.Unwrap(loadFS), short(f)+"|fileset|parse", m.parse.Pos(), "Run parses the targets into the FileSet the patches were loaded into")
+		if runnerFS != nil {
+			r.Check(an.Unwrap(runnerFS) == an.Unwrap(loadFS), short(f)+"|fileset|runner", f.Pos(), "and hands the same FileSet to the patch runner")
+		}
+	}
+}
+
+func nonDebugUses(c ssa.CallInstruction) int {
+	v, ok := c.(ssa.Value)
+	if !ok || v.Referrers() == nil {
+		return 0
+	}
+	n := 0
+	for _, u := range *v.Referrers() {
+		if _, dbg := u.(*ssa.DebugRef); !dbg {
+			n++
+		}
+	}
+	return n
+}
+
+// isFieldOfRecv: v is (as seen from anchor) a load of a field of anchor's receiver.
+func isFieldOfRecv(v ssa.Value, anchor, in *ssa.Function) bool {
+	recv := recvValue(anchor)
+	if recv == nil {
+		return false
+	}
+	root := an.Root(an.Unwrap(v))
+	for steps := 0; steps < 4; steps++ {
+		if u, ok := root.(*ssa.UnOp); ok {
+			root = an.Root(u.X)
+			continue
+		}
+		break
+	}
+	if root == ssa.Value(recv) {
+		return true
+	}
+	if p, ok := root.(*ssa.Parameter); ok && p.Parent() != anchor {
+		if a := an.Actual(p); a != nil {
+			return isFieldOfRecv(a, anchor, anchor)
+		}
+	}
+	return false
+}
+
+// ---------------------------------------------------------------------------
+// C19: positions are computed against the bytes of the user's file
+
+// patchBytesUnaltered: the byte slice read from the patch file is handed down
+// to the sectioner as it is — LoadReader → parseAndCompile → parse.Parse →
+// parseProgram → section.Split (and patch.Parse → parse.Parse). Line and
+// column of every diagnostic are offsets into that slice; a slice that was
+// trimmed, re-sliced or copied on the way shifts all of them (seed C19-9).
+func patchBytesUnaltered(r *an.Run, rule string) {
+	r.Rule(rule)
+	n := 0
+	check := func(f *ssa.Function, calleeMatches func(ssa.CallInstruction) bool, isSource func(ssa.Value) bool, what string) {
+		if f == nil {
+			return
+		}
+		for _, c := range an.Calls(f) {
+			if !calleeMatches(c) {
+				continue
+			}
+			for _, a := range c.Common().Args {
+				if an.ShortType(a.Type()) != "[]byte" {
+					continue
+				}
+				n++
+				r.Check(isSource(an.Unwrap(a)), short(f)+"|passes-bytes-on|"+an.TrimModule(an.CalleeName(c)), c.Pos(), "%s hands %s on unaltered (found %s)", short(f), what, an.Describe(an.Unwrap(a)))
+			}
+		}
+	}
+	staticTo := func(names ...string) func(ssa.CallInstruction) bool {
+		return func(c ssa.CallInstruction) bool {
+			sc := an.StaticCallee(c)
+			if sc == nil {
+				return false
+			}
+			for _, nm := range names {
+				if short(sc) == nm {
+					return true
+				}
+			}
+			return false
+		}
+	}
+	paramBytes := func(f *ssa.Function) func(ssa.Value) bool {
+		return func(v ssa.Value) bool {
+			p, ok := v.(*ssa.Parameter)
+			return ok && p.Parent() == f && an.ShortType(p.Type()) == "[]byte"
+		}
+	}
+	// LoadReader: what io.ReadAll returned goes to l.parseAndCompile (a function value)
+	if f := fn(r, mainP, "patchLoader.LoadReader"); f != nil {
+		var read ssa.Value
+		for _, c := range an.CallsTo(f, "io.ReadAll", "io/ioutil.ReadAll") {
+			if ex := an.ExtractOf(c.(*ssa.Call), 0); len(ex) > 0 {
+				read = ex[0]
+			}
+		}
+		for _, c := range an.Calls(f) {
+			if c.Common().IsInvoke() || an.StaticCallee(c) != nil {
+				continue
+			}
+			if _, isBuiltin := c.Common().Value.(*ssa.Builtin); isBuiltin {
+				continue
+			}
+			for _, a := range c.Common().Args {
+				if an.ShortType(a.Type()) == "[]byte" {
+					n++
+					r.Check(read != nil && an.Unwrap(a) == read, short(f)+"|passes-bytes-on|parseAndCompile", c.Pos(), "LoadReader hands the bytes it read to the parser unaltered (found %s)", an.Describe(an.Unwrap(a)))
+				}
+			}
+		}
+	}
+	if f := fn(r, mainP, "parseAndCompile"); f != nil {
+		check(f, staticTo("internal/parse.Parse"), paramBytes(f), "the patch source")
+	}
+	if f := fn(r, patchP, "Parse"); f != nil {
+		check(f, staticTo("internal/parse.Parse"), paramBytes(f), "the patch source")
+	}
+	if f := fn(r, parseP, "Parse"); f != nil {
+		check(f, staticTo("(*internal/parse.parser).parseProgram"), paramBytes(f), "the patch source")
+	}
+	if f := fn(r, parseP, "parser.parseProgram"); f != nil {
+		check(f, staticTo("internal/parse/section.Split"), paramBytes(f), "the patch source")
+	}
+	if f := fn(r, sectRel, "Split"); f != nil {
+		// the file is registered with the length of that very slice, and the splitter scans it
+		p := paramAt(f, 2)
+		sized := false
+		for _, c := range an.CallsTo(f, "(*go/token.FileSet).AddFile") {
+			a := c.Common().Args
+			if lc, ok := a[len(a)-1].(*ssa.Call); ok && an.IsCallTo(lc, "builtin:len") && lc.Call.Args[0] == ssa.Value(p) {
+				sized = true
+			}
+		}
+		n++
+		r.Check(sized, short(f)+"|file-size", f.Pos(), "the token.File of the patch is registered with the length of the source it is given")
+		stored := false
+		for _, in := range an.StoresIn(f) {
+			if st, ok := in.(*ssa.Store); ok {
+				if fa, ok := st.Addr.(*ssa.FieldAddr); ok && fieldNameOf(fa) == "content" && st.Val == ssa.Value(p) {
+					stored = true
+				}
+			}
+		}
+		r.Check(stored, short(f)+"|splitter-content", f.Pos(), "the splitter scans that very slice")
+	}
+	r.Count("hand-overs of the patch source", n)
+	r.Min("hand-overs of the patch source", 5)
+}
